@@ -295,7 +295,7 @@ class Caller(object):
             if kind == "allocate" or r[0] != "ok":
                 return label, self.norm(r)
             allocations = r[1]
-            radius = [0, 2, 20][t.draw(3)]
+            radius = [0, 1, 2, 3, 20][t.draw(5)]
             label = "route[r=%d]" % radius
             r = self.guarded(label, ner.route,
                              (vr, nets, machine, constraints, placements,
